@@ -924,4 +924,52 @@ theorem applyGroups_none_of_orbit (C : List (State × List Nat))
       simp only [applyGroups]
       exact ih _ _ _ (hC _ hc).2
 
+/-! ## the executable reference closure is reachability -/
+
+theorem Reach.head {s : State} {p q x : Nat} (he : Edge s p q) (hr : Reach s q x) : Reach s p x := by
+  induction hr with
+  | edge h => exact Reach.step (Reach.edge he) h
+  | step _ h ih => exact Reach.step ih h
+
+theorem mem_closureIter_succ {s : State} {x p k : Nat} :
+    p ∈ closureIter s x (k + 1) ↔
+      p ∈ closureIter s x k ∨ ∃ q ∈ closureIter s x k, Edge s p q := by
+  show p ∈ union (closureIter s x k)
+      ((closureIter s x k).foldr (fun q acc => union (dmoOf s q) acc) []) ↔ _
+  rw [mem_union, mem_foldr_union (fun q : Nat => dmoOf s q)]
+  constructor
+  · rintro (h | ⟨q, hq, hp⟩)
+    · exact Or.inl h
+    · exact Or.inr ⟨q, hq, mem_dmoOf_iff_edge.mp hp⟩
+  · rintro (h | ⟨q, hq, hp⟩)
+    · exact Or.inl h
+    · exact Or.inr ⟨q, hq, mem_dmoOf_iff_edge.mpr hp⟩
+
+theorem reach_of_mem_closureIter {s : State} {x : Nat} :
+    ∀ (k p : Nat), p ∈ closureIter s x k → Reach s p x := by
+  intro k
+  induction k with
+  | zero => intro p h; exact Reach.edge (mem_dmoOf_iff_edge.mp h)
+  | succ k ih =>
+    intro p h
+    rcases mem_closureIter_succ.mp h with h | ⟨q, hq, he⟩
+    · exact ih p h
+    · exact Reach.head he (ih q hq)
+
+theorem mem_closureIter_of_reach {s : State} {x p : Nat} (hr : Reach s p x) :
+    ∃ k, p ∈ closureIter s x k := by
+  -- generalised: anything reaching an already collected node (or `x` itself) gets collected
+  have key : ∀ y, Reach s p y → (y = x ∨ ∃ k, y ∈ closureIter s x k) → ∃ k, p ∈ closureIter s x k := by
+    intro y hy
+    induction hy with
+    | edge he =>
+      rintro (rfl | ⟨k, hk⟩)
+      · exact ⟨0, mem_dmoOf_iff_edge.mpr he⟩
+      · exact ⟨k + 1, mem_closureIter_succ.mpr (Or.inr ⟨_, hk, he⟩)⟩
+    | step _ he ih =>
+      rintro (rfl | ⟨k, hk⟩)
+      · exact ih (Or.inr ⟨0, mem_dmoOf_iff_edge.mpr he⟩)
+      · exact ih (Or.inr ⟨k + 1, mem_closureIter_succ.mpr (Or.inr ⟨_, hk, he⟩)⟩)
+  exact key x hr (Or.inl rfl)
+
 end Kanidm.MemberOf
